@@ -107,3 +107,56 @@ pub fn read_doc(bytes: &[u8]) -> Option<Doc> {
     let root = root?;
     Some(Doc { prolog, root, epilog })
 }
+
+/// the top-level items of an input with any number of top-level elements
+pub fn read_items(bytes: &[u8]) -> Option<Vec<Item>> {
+    let text = std::str::from_utf8(bytes).ok()?;
+    let mut reader = Reader::from_str(text);
+    let mut stack: Vec<Node> = Vec::new();
+    let mut top: Vec<Item> = Vec::new();
+    loop {
+        let ev = reader.read_event().ok()?;
+        let mk = |e: &quick_xml::events::BytesStart, sc: bool| -> Option<Node> {
+            let mut n = Node::new(std::str::from_utf8(e.name().as_ref()).ok()?);
+            n.self_closing = sc;
+            for a in e.attributes() {
+                let a = a.ok()?;
+                let v = String::from_utf8(a.value.to_vec()).ok()?;
+                let v = crate::dom::mark_entities(&v).replace("&lt;", "<").replace("&quot;", "\"").replace("&amp;", "&");
+                n.attrs.push((std::str::from_utf8(a.key.as_ref()).ok()?.to_string(), v));
+            }
+            Some(n)
+        };
+        let mut put = |stack: &mut Vec<Node>, it: Item| match stack.last_mut() {
+            Some(p) => p.items.push(it),
+            None => top.push(it),
+        };
+        match ev {
+            Event::Start(e) => stack.push(mk(&e, false)?),
+            Event::Empty(e) => {
+                let n = mk(&e, true)?;
+                put(&mut stack, Item::Elem(n));
+            }
+            Event::End(_) => {
+                let n = stack.pop()?;
+                put(&mut stack, Item::Elem(n));
+            }
+            Event::Text(t) => {
+                let raw = t.into_inner();
+                let s = crate::dom::mark_entities(&String::from_utf8(raw.to_vec()).ok()?).replace("&lt;", "<").replace("&gt;", ">").replace("&amp;", "&");
+                let it = if is_ws(&raw) { Item::Ws(s) } else { Item::Text(s) };
+                put(&mut stack, it);
+            }
+            Event::CData(t) => put(&mut stack, Item::CData(String::from_utf8(t.into_inner().to_vec()).ok()?)),
+            Event::Comment(t) => put(&mut stack, Item::Comment(String::from_utf8(t.into_inner().to_vec()).ok()?)),
+            Event::PI(t) => put(&mut stack, Item::PI(String::from_utf8(t.to_vec()).ok()?)),
+            Event::Decl(d) => put(&mut stack, Item::Decl(String::from_utf8(d.to_vec()).ok()?)),
+            Event::DocType(d) => put(&mut stack, Item::DocType(String::from_utf8(d.into_inner().to_vec()).ok()?)),
+            Event::Eof => break,
+        }
+    }
+    if !stack.is_empty() {
+        return None;
+    }
+    Some(top)
+}
